@@ -122,12 +122,15 @@ type yamlParseError struct {
 }
 
 func (err *yamlParseError) Error() string {
-	var index int
+	index := -1
 	var message string
 	var pe *yaml.ParserError
 	var te *yaml.TypeError
 	if errors.As(err.err, &pe) {
-		index, message = pe.Index, pe.Message
+		if pe.Line > 0 {
+			index = pe.Index
+		}
+		message = pe.Message
 	} else if errors.As(err.err, &te) {
 		var ue *yaml.UnmarshalError
 		for _, e := range te.Errors {
@@ -136,6 +139,12 @@ func (err *yamlParseError) Error() string {
 				break
 			}
 		}
+	}
+	if index < 0 { // the library tells no position
+		if message == "" {
+			message = strings.TrimPrefix(err.err.Error(), "yaml: ")
+		}
+		return fmt.Sprintf("invalid yaml: %s: %s", err.fname, message)
 	}
 	// The index counts characters, not bytes.
 	var offset int
